@@ -57,6 +57,11 @@ def main():
         if os.path.exists(mid):
             r = sh("git", "-C", srepo, "apply", os.path.abspath(mid))
             if r.returncode != 0:
+                # written against an earlier HEAD: try a three-way merge before giving up
+                sh("git", "-C", srepo, "checkout", "--", ".")
+                r = sh("git", "-C", srepo, "apply", "-3", os.path.abspath(mid))
+                sh("git", "-C", srepo, "reset", "-q")
+            if r.returncode != 0:
                 print("patch does not apply\n" + r.stdout)
                 return 2
             print("applied patch", mid)
